@@ -111,6 +111,23 @@ def one_per_element(ctx, fn: FuncInfo, e: ast.expr, param: str, depth: int = 4) 
     return False
 
 
+def deep_expand(ctx, fn: FuncInfo, e: ast.expr, depth: int = 3) -> ast.expr:
+    """`e` with every single-assignment local (not a parameter, not a loop variable) replaced by the expression it was bound to."""
+    if e is None or depth <= 0:
+        return e
+    sa = ctx.resolver(fn).single_assignments()
+    params = set(fn.params())
+
+    class T(ast.NodeTransformer):
+        def visit_Name(self, n):
+            if isinstance(n.ctx, ast.Load) and n.id in sa and n.id not in params and not isinstance(sa[n.id], ast.Name) or (
+                    isinstance(n.ctx, ast.Load) and n.id in sa and n.id not in params and isinstance(sa[n.id], ast.Name) and sa[n.id].id != n.id):
+                return deep_expand(ctx, fn, copy.deepcopy(sa[n.id]), depth - 1)
+            return n
+
+    return ast.fix_missing_locations(T().visit(copy.deepcopy(e)))
+
+
 def calls_through(ctx, fn: FuncInfo, target_qname: str, depth: int = 2, _map: dict | None = None) -> list[tuple[ast.Call, list[str]]]:
     """Calls to target reachable from fn, directly or via repo helpers that fn calls; arguments are rewritten into fn's own
     terms by substituting each helper's parameters with the caller's argument expressions (single-assignment locals expanded)."""
